@@ -420,6 +420,8 @@ func run(c Case) ([]vk.Violation, vk.Info) {
 
 	// ---- history ----
 	collections := 0
+	var retainedRM []*metricdata.ResourceMetrics
+	var retainedFP, retainedAt []string
 	skippedCollect := false
 	for ci := range c.Cycles {
 		cy := &c.Cycles[ci]
@@ -465,11 +467,17 @@ func run(c Case) ([]vk.Violation, vk.Info) {
 					}
 				}
 			}
-			var rm metricdata.ResourceMetrics
-			if err := rd.Collect(ctx, &rm); err != nil {
+			// each collection gets its own ResourceMetrics, which is kept: what
+			// a Collect returned must not change when more is measured/collected
+			rmp := &metricdata.ResourceMetrics{}
+			if err := rd.Collect(ctx, rmp); err != nil {
 				bad("setup_error", "cycle %d reader %d: Collect: %v", ci, r, err)
 				return vs, info
 			}
+			rm := *rmp
+			retainedRM = append(retainedRM, rmp)
+			retainedFP = append(retainedFP, fmt.Sprintf("%+v", rmp.ScopeMetrics))
+			retainedAt = append(retainedAt, fmt.Sprintf("cycle %d reader %d", ci, r))
 			collections++
 			got, err := readMetrics(&rm)
 			if err != nil {
@@ -477,6 +485,13 @@ func run(c Case) ([]vk.Violation, vk.Info) {
 				return vs, info
 			}
 			compare(fmt.Sprintf("cycle %d reader %d(mode %d)", ci, r, c.Readers[r]), m, got, limit, bad)
+		}
+	}
+
+	for i, rmp := range retainedRM {
+		if now := fmt.Sprintf("%+v", rmp.ScopeMetrics); now != retainedFP[i] {
+			bad("collected_data_changed_later", "the data returned by Collect in %s changed after later measurements / collections:\nat collection time: %s\nnow:                %s", retainedAt[i], retainedFP[i], now)
+			break
 		}
 	}
 
